@@ -27,7 +27,7 @@ ASSUMPTIONS = ['operators whose third-party dependency is not installed are outs
 REQUIRED = ['entries-judged', 'binary:left-only-empty', 'binary:right-only-empty', 'binary:both-empty', 'reference-model-used',
             'generic-rule-used', 'explicit-expectation-used']
 EXHAUSTIVE = {'quick': True, 'thorough': True}
-SHAPES = ['lists', 'tuples', 'four-fields', 'generator']
+SHAPES = ['lists', 'tuples', 'four-fields', 'generator', 'none-keys']
 
 H3 = ('f0', 'f1', 'f2')
 
@@ -62,6 +62,8 @@ def cases(ctx):
         subsets = [[0]] if e.arity == 1 else [[0], [1], [0, 1]]
         for sub in subsets:
             for shape in SHAPES:
+                if shape == 'none-keys' and not (e.arity == 2 and e.second == 'join'):
+                    continue
                 yield {'op': e.name, 'empty': sub, 'shape': shape}
 
 
@@ -79,6 +81,11 @@ def _shape(table, shape, extra):
 def _inputs(e, case):
     a = C.table_a(4)
     b = C.second_for(e, 3) if e.arity == 2 else None
+    if case['shape'] == 'none-keys' and e.arity == 2 and e.second == 'join':
+        # the non-empty side carries rows whose key is None (the value an exhausted side's key placeholder also has)
+        a[1][0] = None
+        a[3][0] = None
+        b[1][0] = None
     if 0 in case['empty']:
         a = a[:1]
     if b is not None and 1 in case['empty']:
